@@ -51,7 +51,16 @@ SR = OrderedDict([
     ("min-mul", (ops.min, ops.mul, "min-mul", "nonneg-int", None)),
     ("or-and", (ops.or_, ops.and_, "or-and", "bool", None)),
 ])
-SR_WEIGHTS = ["add-mul"] * 4 + ["logaddexp-add"] * 2 + ["max-add"] * 2 + ["min-add", "max-mul", "min-mul", "or-and"]
+SR_WEIGHTS = (["add-mul"] * 4 + ["or-and"] * 4 + ["logaddexp-add"] * 2 + ["max-add"] * 2
+              + ["min-add", "max-mul", "min-mul"])
+
+# how the data of the leaves of the case being generated are STORED (set by gen_case from the case's PRNG):
+#   "typed-bool": or-and leaves are Bint[2] Tensors whose 0/1 data are stored as bool / uint8 / int32 / int64
+#   "real-bool":  or-and leaves are numpy bool arrays typed Real (what `Tensor(bool_array)` gives)
+#   "floats":     real leaves stored as float32 or float64
+#   None:         float64 throughout
+_STORAGE = [None]
+INT_STORES = ["bool", "uint8", "int64", "int32"]
 OPS_TO_SR = {(v[0], v[1]): k for k, v in SR.items()}
 
 NAMES = ["a", "b", "c", "d"]
@@ -65,7 +74,7 @@ PARAMS = ["x", "y"]
 def gen_data(rng, shape, kind):
     n = int(np.prod(shape)) if shape else 1
     if kind == "bool":
-        return np.array([rng.random() < 0.5 for _ in range(n)], dtype=bool).reshape(shape)
+        return np.array([rng.random() < 0.65 for _ in range(n)], dtype=bool).reshape(shape)
     if kind == "log":
         # linear values (dyadic); the log-space data are np.log of these
         return np.array([rng.choice([0.0, 0.25, 0.5, 1.0, 1.0, 2.0, 3.0]) for _ in range(n)]).reshape(shape)
@@ -97,7 +106,13 @@ def gen_leaf(rng, ctx, srname, params):
     names = [n for n in ctx if rng.random() < 0.55]
     rng.shuffle(names)
     data = gen_data(rng, tuple(ctx[n] for n in names), kind)
-    return ("leaf", tuple(names), data), set(names)
+    mode = _STORAGE[0]
+    store = None
+    if mode == "typed-bool" and kind == "bool":
+        store = rng.choice(INT_STORES)
+    elif mode == "floats" and kind not in ("bool", "log"):
+        store = rng.choice(["float32", "float64"])
+    return ("leaf", tuple(names), data, store), set(names)
 
 
 def gen_expr(rng, ctx, srname, params, depth, budget, top=False):
@@ -218,6 +233,14 @@ def gen_case(rng, tier):
     if srname not in ("or-and",) and rng.random() < 0.25:
         params = PARAMS[: rng.choice([1, 1, 2])]
     depth = rng.choice([2, 3, 3, 4])
+    if srname == "or-and":
+        _STORAGE[0] = "typed-bool" if rng.random() < 0.8 else "real-bool"
+        if nn >= 2 and rng.random() < 0.5:      # sizes >= 2 so that pair contractions see >= 2 satisfying assignments
+            ctx = OrderedDict((n, max(2, sz)) for n, sz in ctx.items())
+    elif SR[srname][3] != "log" and rng.random() < 0.3:
+        _STORAGE[0] = "floats"
+    else:
+        _STORAGE[0] = None
     while True:
         recipe, free = gen_expr(rng, ctx, srname, params, depth, [8], top=True)
         if recipe_leaves(recipe) <= 8 and (recipe_leaves(recipe) >= 2 or rng.random() < 0.1):
@@ -336,7 +359,13 @@ def build(r, srname, ctx, linear=False):
         if kind == "log" and not linear:
             with np.errstate(divide="ignore"):
                 data = np.log(data)
-        return Tensor(data, OrderedDict((n, Bint[ctx[n]]) for n in r[1]))
+        store = r[3] if len(r) > 3 else None
+        inputs = OrderedDict((n, Bint[ctx[n]]) for n in r[1])
+        if store is None:
+            return Tensor(data, inputs)
+        if store in INT_STORES:
+            return Tensor(data.astype(store), inputs, 2)       # Bint[2]-valued, 0/1 stored in `store`
+        return Tensor(data.astype(store), inputs)
     if tag == "num":
         v = r[1]
         if kind == "log" and not linear:
@@ -377,7 +406,8 @@ def build(r, srname, ctx, linear=False):
 def python_of(r, ctx):
     tag = r[0]
     if tag == "leaf":
-        return (f"T({r[2].tolist()!r}, OrderedDict([" + ", ".join(f"({n!r}, Bint[{ctx[n]}])" for n in r[1]) + "]))")
+        return (f"T({r[2].tolist()!r}, OrderedDict([" + ", ".join(f"({n!r}, Bint[{ctx[n]}])" for n in r[1]) + "]), "
+                f"{(r[3] if len(r) > 3 else None)!r})")
     if tag == "num":
         return f"N({r[1]!r})"
     if tag == "param":
@@ -438,12 +468,13 @@ def replay_python(case, stage, ins, expected):
     s = PY_HEADER
     s += f"SUM, PROD = {sum_name}, {prod_name}\n"
     if kind == "log":
-        s += ("def T(d, ins):\n    with np.errstate(divide='ignore'):\n        return Tensor(np.log(np.array(d, dtype=float)), ins)\n"
+        s += ("def T(d, ins, store=None):\n    with np.errstate(divide='ignore'):\n        return Tensor(np.log(np.array(d, dtype=float)), ins)\n"
               "def N(v):\n    return Number(math.log(v) if v > 0 else -math.inf)\n")
     elif kind == "bool":
-        s += "def T(d, ins):\n    return Tensor(np.array(d, dtype=bool), ins)\ndef N(v):\n    return Number(v)\n"
+        s += ("def T(d, ins, store=None):\n    if store is None:\n        return Tensor(np.array(d, dtype=bool), ins)\n"
+              "    return Tensor(np.array(d, dtype=bool).astype(store), ins, 2)\ndef N(v):\n    return Number(v)\n")
     else:
-        s += "def T(d, ins):\n    return Tensor(np.array(d, dtype=float), ins)\ndef N(v):\n    return Number(v)\n"
+        s += "def T(d, ins, store=None):\n    return Tensor(np.array(d, dtype=store or float), ins)\ndef N(v):\n    return Number(v)\n"
     s += f"with {case['mode']}:\n    x = {python_of(case['recipe'], case['ctx'])}\n"
     s += {"naive-eager": f"r = {python_of(case['recipe'], case['ctx'])}\n",
           "reinterpret": "r = reinterpret(x)\n",
@@ -474,7 +505,8 @@ def replay_python(case, stage, ins, expected):
           "        have = list(r.inputs)\n"
           "        data = data.transpose([have.index(n) for n in names if n in have])\n"
           "        data = np.broadcast_to(data.reshape([s if n in have else 1 for n, s in ins]), [s for _, s in ins])\n")
-    s += ("        got = np.exp(data).reshape(-1)\n" if kind == "log" else "        got = data.reshape(-1)\n")
+    s += ("        got = np.exp(data).reshape(-1)\n" if kind == "log" else
+          "        got = (data.reshape(-1) != 0).astype(float)   # truth values\n" if kind == "bool" else "        got = data.reshape(-1)\n")
     s += "        print(got, expected)\n        FAILS = not np.allclose(got, np.array(expected, dtype=float), rtol=1e-9, atol=1e-12, equal_nan=True)\n"
     return s
 
@@ -616,6 +648,18 @@ def values_of(f, ins, env, log):
         with np.errstate(over="ignore"):
             return [float(v) for v in np.exp(flat.astype(float))]
     return [exact(v) for v in flat]
+
+
+def truthify(vals):
+    """(or, and): compare TRUTH values (a Bint[2] result is compared as 0/1)."""
+    if vals is None:
+        return None
+    return [Fraction(0) if v == 0 else Fraction(1) for v in vals]
+
+
+def out_of_range(f, vals):
+    """a result typed Bint[2] whose data are not all 0/1 (declared-type range: C06's clause, counted here)"""
+    return vals is not None and getattr(f, "dtype", None) == 2 and any(v not in (0, 1) for v in vals)
 
 
 def model_values(answer):
@@ -914,6 +958,10 @@ def check_cases(ctx, cases, label="clean"):
                 continue
             try:
                 got = values_of(r, ins, job["env_impl"], log)
+                if srname == "or-and":
+                    if out_of_range(r, got):
+                        ctx.count(f"range:bint2-result-not-0/1:{stage}")
+                    got = truthify(got)
             except (KeyError, ValueError) as e:
                 ok_all = False
                 report(stage, f"{type(e).__name__}: {e}")
@@ -995,6 +1043,10 @@ def check_cases(ctx, cases, label="clean"):
                 continue
             try:
                 got = values_of(fr["result"], free, job["env_impl"], log)
+                if srname == "or-and":
+                    if out_of_range(fr["result"], got):
+                        ctx.count("range:bint2-result-not-0/1:firing")
+                    got = truthify(got)
             except (KeyError, ValueError) as e:
                 got = f"{type(e).__name__}: {e}"
             absent = [v.name for v in fr["reduced"] if not any(v.name in t.inputs for t in fr["terms"])]
@@ -1181,6 +1233,8 @@ def oracle_stage(ctx, case, stage, res=None):
         return (expected, f"foreign inputs {sorted(r.inputs)}", ins)
     try:
         got = values_of(r, ins, env_impl, log)
+        if srname == "or-and":
+            got = truthify(got)
     except (KeyError, ValueError) as e:
         return (expected, str(e), ins)
     if got is None or vals_equal(got, expected, tol):
@@ -1416,6 +1470,8 @@ def brute_einsum(srname, operands, arrays, output, sizes):
                 v = exact(v)
                 if term is None:
                     term = v
+                elif wire == "or-and":
+                    term = min(term, v)
                 elif wire.endswith("mul"):
                     term = term * v
                 else:
@@ -1550,12 +1606,82 @@ def stream_einsum(ctx):
             ctx.infra_errors.append(f"einsum oracle and Lean denote disagree on {eqn}: {mv} vs {want}")
 
 
+def stream_orand_contractions(ctx):
+    """(or, and) over the einsum equations: Bint[2] operands whose 0/1 data are STORED as bool / uint8 / int32 /
+    int64 (funsor.einsum has no backend name for this semiring, so the n-ary Contraction is built directly):
+    eager n-ary Contraction, apply_optimizer of the lazy one, and the naive fold, as truth values against brute force."""
+    rng = ctx.rng
+    eqs = [e for e in einsum_equations(3, 3) if len(e[0]) >= 2]
+    step = 2 if ctx.tier == "quick" else 1
+    for idx, (operands, output) in enumerate(eqs):
+        if idx % step:
+            continue
+        used = sorted(set().union(*[set(o) for o in operands]))
+        red = [s_ for s_ in used if s_ not in output]
+        if not red:
+            continue
+        sizes = {s_: rng.choice([2, 2, 3, 4]) for s_ in "abc"}
+        arrays, terms, perm_ops = [], [], []
+        for o in operands:
+            o = list(o)
+            rng.shuffle(o)
+            perm_ops.append(tuple(o))
+            a = gen_data(rng, tuple(sizes[s_] for s_ in o), "bool")
+            arrays.append(a)
+            terms.append(Tensor(a.astype(rng.choice(INT_STORES)), OrderedDict((s_, Bint[sizes[s_]]) for s_ in o), 2))
+        ins = [(s_, sizes[s_]) for s_ in sorted(output)]
+        want = brute_einsum("or-and", perm_ops, [a.astype(float) for a in arrays], tuple(s_ for s_, _ in ins), sizes)
+        rv = frozenset(Variable(s_, Bint[sizes[s_]]) for s_ in red)
+        routes = {}
+        try:
+            routes["eager-nary"] = Contraction(ops.or_, ops.and_, rv, *terms)
+            with lazy:
+                x = Contraction(ops.or_, ops.and_, rv, *terms)
+            routes["optimizer"] = apply_optimizer(x)
+            routes["naive-fold"] = fold(ops.and_, terms).reduce(ops.or_, frozenset(red))
+        except DECLINE as e:
+            ctx.count(f"orand:declined:{type(e).__name__}")
+        for route, r in routes.items():
+            bad = None
+            if set(r.inputs) - set(output):
+                bad = f"foreign inputs {sorted(r.inputs)}"
+            else:
+                try:
+                    got = values_of(r, ins, {}, False)
+                except (KeyError, ValueError) as e:
+                    got, bad = None, str(e)
+                if bad is None:
+                    if out_of_range(r, got):
+                        ctx.count(f"range:bint2-result-not-0/1:orand-{route}")
+                    if got is None or not vals_equal(truthify(got), want, 0.0):
+                        bad = got
+            ctx.count(f"orand:{route}")
+            if bad is not None:
+                eqn = ",".join("".join(o) for o in perm_ops) + "->" + "".join(s_ for s_, _ in ins)
+                build_terms = "terms = [" + ", ".join(
+                    f"Tensor(np.array({t.data.astype(int).tolist()!r}).astype({str(t.data.dtype)!r}), OrderedDict(["
+                    + ", ".join(f"({k!r}, Bint[{v.size}])" for k, v in t.inputs.items()) + "]), 2)" for t in terms) + "]\n"
+                how = {"eager-nary": "r = Contraction(ops.or_, ops.and_, rv, *terms)\n",
+                       "optimizer": "with lazy:\n    x = Contraction(ops.or_, ops.and_, rv, *terms)\nr = apply_optimizer(x)\n",
+                       "naive-fold": "r = fold(ops.and_, terms).reduce(ops.or_, frozenset(" + repr(red) + "))\n"}[route]
+                py = (PY_HEADER + build_terms + "rv = frozenset([" + ", ".join(f"Variable({s_!r}, Bint[{sizes[s_]}])" for s_ in red) + "])\n"
+                      + how + "print(r)\n" + f"want = {[float(v) for v in want]!r}   # brute force (truth values) over {ins}\n"
+                      "names = " + repr([n for n, _ in ins]) + "\nFAILS = bool(set(r.inputs) - set(names))\nif not FAILS:\n"
+                      "    have = list(r.inputs)\n    d = np.asarray(r.data).transpose([have.index(n) for n in names if n in have])\n"
+                      "    d = np.broadcast_to(d.reshape([s if n in have else 1 for n, s in " + repr(ins) + "]), " + repr([s_ for _, s_ in ins]) + ").reshape(-1)\n"
+                      "    FAILS = not np.array_equal((d != 0).astype(float), np.array(want))\n")
+                ctx.fail("input", f"C08.orand-{route}-ne-bruteforce", witness=dict(equation=eqn, storage=[str(t.data.dtype) for t in terms],
+                         data=[a.astype(int).tolist() for a in arrays]), expected=str(want)[:300], got=str(bad)[:300], python=py)
+            else:
+                ctx.case(nontrivial_key=("orand", idx, route))
+
+
 # ------------------------------------------------------------------------------------------------
 # entry points
 # ------------------------------------------------------------------------------------------------
 
 def correspond(ctx):
-    n = 900 if ctx.tier == "quick" else 12000
+    n = 800 if ctx.tier == "quick" else 12000
     ctx.rule = ("random semiring expressions over 1-4 named Bint inputs of sizes 1-4 (leaves over random subsets of the "
                 "inputs, numbers incl. both units, free real parameters bound at a sample point; products, ⊕-sums, "
                 "reductions over random subsets incl. absent variables, direct Contractions, renaming/number "
@@ -1569,6 +1695,7 @@ def correspond(ctx):
     stream_shared_binder(ctx)
     stream_absent_var(ctx)
     stream_einsum(ctx)
+    stream_orand_contractions(ctx)
     ctx.assumptions.append("(logaddexp, add) is compared through exp with rtol 1e-9 against the (add, mul) twin in Lean; "
                            "opt_einsum.contract and numpy's einsum are trusted primitives (modelled by ⨁⨂)")
 
